@@ -705,9 +705,9 @@ fn c06_deposit_leg_long_no_impact_whole_u8() {
     deposit_leg(true, false);
 }
 
-//@ prop=C06 tier=thorough kind=hold
+//@ prop=C06 tier=experimental kind=hold
 //@ enc=Deposit::try_new, Deposit::execute, Deposit::price_impact, Deposit::execute_deposit, Deposit::charge_fees, LiquidityMarketExt::pool_value, LiquidityMarketExt::validate_pool_value_for_deposit, BaseMarketExt::validate_max_pnl, BaseMarketExt::validate_pool_amount, BaseMarketMutExt::apply_delta, SwapMarketExt::swap_impact_value, SwapMarketMutExt::apply_swap_impact_value_with_cap, utils::usd_to_market_token_amount, FeeParams::apply_fees
-//@ bound=T=u8 DECIMALS=1 (UNIT 10): one SHORT-token Deposit::execute, same symbolic state as the long-token harness
+//@ bound=T=u8 DECIMALS=1 (UNIT 10): one SHORT-token Deposit::execute, same symbolic state as the long-token harness -- its only run was killed by memory exhaustion of the shared machine at 21.9 GB resident after 52 min (the long-token twin passes in 81 min / 21.9 GB); experimental until it has passed once
 //@ timeout=7200 mem=58
 #[kani::proof]
 #[kani::unwind(1)]
